@@ -191,7 +191,22 @@ def _kinds(rec):
 @classifier
 def c15_object_row_dtype(rec, params):
     cs, kinds = _kinds(rec)
-    return 'b' in kinds and any(k != 'b' for k in kinds)
+    if not ('b' in kinds and any(k != 'b' for k in kinds)):
+        return False
+    act = rec.get('actual') or {}
+    # (a) skipna=False: NaN not propagated by min / max / median through the object path
+    if cs.get('op') == 'f_reduce' and not cs.get('skipna') and cs.get('fn') in ('min', 'max', 'median'):
+        return True
+    # (b) axis 1: var / std / median / mean raise TypeError at Frame level on the object row dtype
+    if cs.get('op') == 'f_reduce' and cs.get('axis') == 1 and cs.get('fn') in ('var', 'median', 'mean') and act.get('k') == 'err':
+        return True
+    # (c) min / max with skipna over the object path raise (AttributeError inside np.nanmin) when a line is all missing
+    if cs.get('op') == 'f_reduce' and cs.get('fn') in ('min', 'max') and cs.get('skipna') and act.get('k') == 'err':
+        f = cs['f']
+        na = lambda v: v[0] in ('nan', 'none', 'nat')
+        lines = [c['vals'] for c in f['cols']] if cs['axis'] == 0 else [[c['vals'][i] for c in f['cols']] for i in range(len(f['index']))]
+        return any(line and all(na(v) for v in line) for line in lines)
+    return False
 
 
 @classifier
@@ -280,3 +295,64 @@ def c11_empty_input(rec, params):
     if act.get('k') != 'err' or cs.get('op') not in ('f_concat', 'f_concat_items', 'f_overlay'):
         return False
     return any(len(f['index']) == 0 or len(f['columns']) == 0 for f in cs['frames'])
+
+
+def _c07_pairs(rec):
+    case = rec.get('case') or {}
+    act = rec.get('actual') or {}
+    return case, list(zip(case.get('supplied') or [], (act.get('stored') or [])))
+
+
+def _same07(s, t):
+    if s == t:
+        return True
+    num = lambda v: v[0] in ('i', 'f')
+    if num(s) and num(t):
+        from fractions import Fraction
+        q = lambda v: Fraction(v[1], v[2] if v[0] == 'f' else 1)
+        return q(s) == q(t)
+    na = ('nan', 'none', 'nat')
+    if s[0] in na and t[0] in na:
+        return True
+    if s[0] == 'nan' and t[0] == 'c' and t[1][0] == 'nan':
+        return True
+    if s[0] in ('i', 'f', 'I') and t[0] == 'c' and t[2] == ['f', 0, 1]:
+        return _same07(s, t[1])
+    return False
+
+
+@classifier
+def c07_big_int_float(rec, params):
+    case, pairs = _c07_pairs(rec)
+    if not pairs or rec.get('clause') != 'lossy':
+        return False
+    bad = [(s, t) for s, t in pairs if not _same07(s, t)]
+    def big_to_float(s, t):
+        if s[0] != 'I':
+            return False
+        if abs(int(s[1])) <= 2 ** 53:
+            return False
+        inner = t[1] if t[0] == 'c' else t
+        if inner[0] == 'I':
+            return float(int(s[1])) == float(int(inner[1]))
+        return inner[0] in ('F', 'f') and float(int(s[1])) == (float.fromhex(inner[1]) if inner[0] == 'F' else inner[1] / inner[2])
+    return bool(bad) and all(big_to_float(s, t) for s, t in bad)
+
+
+@classifier
+def c07_bytes_iterable(rec, params):
+    case, pairs = _c07_pairs(rec)
+    if case.get('site') not in ('from_records', 'series_from_list', 'series_from_list_rev') or rec.get('clause') != 'lossy':
+        return False
+    sup = [s for s, t in pairs]
+    sto = [t for s, t in pairs]
+    return any(s[0] == 'y' for s in sup) and any(s[0] != 'y' for s in sup) and all(t[0] == 'y' for t in sto)
+
+
+@classifier
+def c07_bytes_element(rec, params):
+    case, pairs = _c07_pairs(rec)
+    if case.get('site') not in ('assign_elem',) or rec.get('clause') != 'lossy':
+        return False
+    bad = [(s, t) for s, t in pairs if not _same07(s, t)]
+    return bool(bad) and all(s[0] == 'y' and t[0] == 'arr' for s, t in bad)
